@@ -77,6 +77,13 @@ ShortAbandon == {[calls |-> q, gaps |-> g, hold |-> [a |-> h, b |-> FALSE], stor
 ShortAbandonPut == {[calls |-> q, gaps |-> g, hold |-> [a |-> h, b |-> FALSE], store |-> st, fault |-> NoFault, long |-> 0, abandon |-> {"putA1"}] :
                    q \in {<<"putA1", c>> : c \in {"putA1b", "putA2", "putA2c", "putA0", "putA2x", "putA0c", "getA1"}} \cup {<<"putA1", "putA2", "getA1">>},
                    g \in {<<0>>, <<30>>, <<100>>, <<400>>, <<30, 30>>, <<400, 30>>}, h \in {0, 1}, st \in {"ack", "drop_p1"}}
+\* a slow link to the storing peers: every write is acknowledged 560 / 800 ms after it was sent - later than the initial request timeout
+\* (500 ms), so the acknowledgements count only if the ADAPTIVE timeout has grown by then: it grows when a late reply to an earlier
+\* request (the i-th reply of the plan, 900 ms late; or two in a row, 620 and 1250 ms) is read while the put is in flight
+ShortSlowStore == {[calls |-> q, gaps |-> g, hold |-> [a |-> 0, b |-> FALSE], store |-> st, fault |-> f, long |-> 0, slow |-> TRUE] :
+                   q \in {<<"putA1">>, <<"putB">>, <<"putA1", "getA1">>, <<"putB", "putA1">>, <<"putA1", "putA2c">>},
+                   g \in {<<>>, <<30>>, <<400>>}, st \in {"slow560", "slow800"},
+                   f \in {NoFault} \cup [kind : {"late", "late2"}, i : 0..MaxIdx]}
 Init == x = 0
 Next == UNCHANGED x
 Spec == Init /\ [][Next]_x
@@ -88,4 +95,5 @@ Emit == PrintT(<<"GEN", ToJson({p \in Short : Valid(p)})>>) /\ PrintT(<<"GEN", T
         /\ PrintT(<<"GEN", ToJson({p \in ShortJoin : Valid(p)})>>)
         /\ PrintT(<<"GEN", ToJson({p \in ShortAbandon : Valid(p)})>>)
         /\ PrintT(<<"GEN", ToJson({p \in ShortAbandonPut : Valid(p)})>>)
+        /\ PrintT(<<"GEN", ToJson({p \in ShortSlowStore : Valid(p)})>>)
 =============================================================================
